@@ -274,6 +274,35 @@ func scenUPL(s *sched.Sim, cfg Config, res *Result) {
 	}
 	mw.Close()
 	truncated := s.T.Bool(1, 8)
+	// C06 runs this scenario for one thing: a fault on a call that carries files (the multipart path)
+	// must not make the gateway send the mutation a second time
+	mutMode := cfg.Prop == "C06"
+	faultKind := ""
+	faultFired := false
+	if mutMode {
+		prop = "C06"
+		truncated = false
+		faultKind = []string{"ErrAfter", "StatusKeepBody", "ReadErr", "ErrBefore"}[s.T.Choose(4)]
+		nth := 1 + s.T.Choose(2)
+		seen := 0
+		env.net.FaultFor = func(m *simnet.Message) *simnet.Fault {
+			if !strings.HasPrefix(m.Tag, "up#") || !strings.HasPrefix(m.ContentType, "multipart/") {
+				return nil
+			}
+			seen++
+			if seen != nth {
+				return nil
+			}
+			faultFired = true
+			switch faultKind {
+			case "StatusKeepBody":
+				return &simnet.Fault{Kind: "StatusKeepBody", Status: 502}
+			case "ReadErr":
+				return &simnet.Fault{Kind: "ReadErr", At: 4}
+			}
+			return &simnet.Fault{Kind: faultKind}
+		}
+	}
 	failAt := -1
 	if truncated {
 		failAt = body.Len()/3 + s.T.Choose(body.Len()/2+1)
@@ -331,6 +360,37 @@ func scenUPL(s *sched.Sim, cfg Config, res *Result) {
 	var optexts []string
 	for _, u := range ops {
 		optexts = append(optexts, u.text)
+	}
+	if mutMode {
+		if faultFired {
+			res.Fault("upload-call:" + faultKind)
+		}
+		if cr.Panic != "" {
+			res.Violate(prop+"/handler-panic", "%s\nops: %v", cr.Panic, optexts)
+		}
+		for oi, u := range ops {
+			tag := fmt.Sprintf("up#%d", oi)
+			perSvc := map[int][]string{}
+			for _, wr := range env.wire {
+				if wr.Tag == tag && strings.HasPrefix(strings.TrimSpace(wr.Text), "mutation") {
+					how := "json"
+					if wr.Multi {
+						how = "multipart"
+					}
+					perSvc[wr.Svc] = append(perSvc[wr.Svc], how)
+				}
+			}
+			for svc, hows := range perSvc {
+				if len(hows) > 1 {
+					res.Violate(prop+"/mutation-duplicated", "service %d received the mutation of one client operation %d times (%v) after fault %s on a call carrying files\nop: %s", svc, len(hows), hows, faultKind, u.text)
+				}
+			}
+		}
+		res.Nontrivial = faultFired
+		res.Key = HashKey(w.UnionSDL, fmt.Sprint(w.Salt), fmt.Sprint(optexts), faultKind, fmt.Sprintf("%x", s.TraceHash()))
+		res.SchedKey = fmt.Sprintf("%x", s.TraceHash())
+		res.Sample = map[string]any{"services": w.ServiceSDL, "operations": optexts, "map": string(mj), "fault_on_multipart_call": faultKind, "fired": faultFired}
+		return
 	}
 	if truncated {
 		res.Fault("upload-stream-truncated")
